@@ -7,7 +7,7 @@ CONSTANTS
  PutFirst = FALSE
  DedupByDigest = FALSE
  DeleteKeepsOne = FALSE
- Faults = TRUE
+ Faults = FALSE
  Alphabet <- AlphaAll
  MaxCmds = 2
 INVARIANTS Holds TypeOk
